@@ -477,11 +477,20 @@ func RunNative(f func()) (failures []string) {
 
 // ---- model hasher ----
 
-type ModelHasher struct{ bits uint16 }
+// A hasher instance is stateful (the real ones are: Reset/Write/Sum on one digest state),
+// so every use writes the instance: two activities that may run concurrently must not share one.
+type ModelHasher struct {
+	bits uint16
+	uses uint32
+}
 
-func (h *ModelHasher) Do(data ...[]byte) hashing.Digest { return HashBytes(data) }
+func (h *ModelHasher) Do(data ...[]byte) hashing.Digest {
+	h.uses++
+	return HashBytes(data)
+}
 
 func (h *ModelHasher) Salted(salt []byte, data ...[]byte) hashing.Digest {
+	h.uses++
 	parts := make([][]byte, 0, len(data)+1)
 	parts = append(parts, data...)
 	parts = append(parts, salt)
